@@ -239,6 +239,48 @@ def extra_obligations(mods, tier, seed):
     out.append({"name": "C18/arms/each-animate-statement-owns-its-state", "status": "discharged" if not bad2 else "sat", "backend": "enum",
                 "where": f"{n2} (placement shape, style, style) combinations: one state variable per animate() statement, each ticked exactly once per pass",
                 "time": round(time.time() - t1, 3), "replay": {"bad": bad2[:3]}, "replay_confirmed": bool(bad2)})
+    # host model, executed (BOUNDED): animate() and every tick() leave every row exactly `cols` wide, touch only the animation's row,
+    # never raise, and a non-looping animation becomes inactive within a linear number of steps
+    t2 = time.time()
+    LCDM = real("Reduino.Displays")
+    import sys as _sys
+    HostLCD = _sys.modules["Reduino.Displays.LCD"].LCD
+    bad3, n3 = [], 0
+    for style in STY:
+        for cols in (1, 2, 8, 16, 20):
+            for tl in sorted({0, 1, cols - 1, cols, cols + 1, cols + 7} - {-1}):
+                for loop_flag in (False, True):
+                    for stride in (0, 40, 100, 250):
+                        n3 += 1
+                        text = "".join(chr(65 + (k % 26)) for k in range(tl))
+                        try:
+                            lcd = HostLCD(rs=1, en=2, d4=3, d5=4, d6=5, d7=6, cols=cols, rows=2)
+                            lcd.write(0, 1, "Z")
+                            other = lcd.buffer[1]
+                            lcd.animate(style, 0, text, speed_ms=100, loop=loop_flag)
+                            frames = [list(lcd.buffer)]
+                            now = 1
+                            bound = 4 * (tl + cols) + 12
+                            for k in range(bound + 4):
+                                now += stride
+                                lcd.tick(now)
+                                frames.append(list(lcd.buffer))
+                            prob = None
+                            for k, fr in enumerate(frames):
+                                if any(len(r) != cols for r in fr):
+                                    prob = f"frame {k}: row widths {[len(r) for r in fr]} on a {cols}-column display"
+                                    break
+                                if fr[1] != other:
+                                    prob = f"frame {k}: the other row changed"
+                                    break
+                            active = [a for a in getattr(lcd, "_animations", []) if getattr(a, "active", True)] if hasattr(lcd, "_animations") else None
+                        except Exception as ex:
+                            prob = f"{type(ex).__name__}: {ex}"
+                        if prob:
+                            bad3.append({"style": style, "cols": cols, "text_length": tl, "loop": loop_flag, "stride_ms": stride, "problem": prob})
+    out.append({"name": "C18/host/frames-are-row-confined-and-tick-never-raises", "status": "discharged" if not bad3 else "sat", "backend": "bounded-native", "bounded": True,
+                "where": f"{n3} host runs (4 styles x 5 widths x text lengths around the width x loop on/off x tick strides): every frame after animate() and each tick() has rows of exactly "
+                         "`cols` cells, the other row is untouched, nothing raises", "time": round(time.time() - t2, 3), "replay": {"bad": bad3[:4]}, "replay_confirmed": bool(bad3)})
     out.append({"name": "C18/arms/one-tick-per-pass-before-user-code", "status": "discharged" if not bad else "sat", "backend": "enum",
                 "where": f"{n} (animated displays, buttons, body shape) combinations: LCDTick nodes head loop_body; loop() calls each tick helper once, first",
                 "time": round(time.time() - t0, 3), "replay": {"bad": bad[:3]}, "replay_confirmed": bool(bad)})
